@@ -73,25 +73,28 @@ def run(ctx):
     for f in fns:
         if f.cls is logical:
             continue        # its dct is a set of indices, not value storage
+        if f.qualname in prog.absorbed:
+            continue        # normal form: analysed inside each of its callers (sites keep the helper's name)
         an = NZAnalysis(f.node)
         try:
             sites = an.run()
         except RecursionError:
             d1.skip(f.qualname, 'analysis recursion limit', f)
             continue
-        nzs = []
+        nzs = {}
         for s in sites:
+            q = getattr(s.stmt, '_origin', None) or getattr(s.node, '_origin', None) or f.qualname
             if s.grade == NZ:
-                d1.ok(f.qualname, 'NZ: ' + s.what, f, s.stmt)
+                d1.ok(q, 'NZ: ' + s.what, f, s.stmt)
             elif s.grade == NZS:
-                nzs.append(s)
-            elif nz_exception(f.qualname, s.expr):
-                d1.ok(f.qualname, 'frozen exception: %s -- %s' % (s.expr, nz_exception(f.qualname, s.expr)), f, s.stmt)
+                nzs.setdefault(q, []).append(s)
+            elif nz_exception(q, s.expr):
+                d1.ok(q, 'frozen exception: %s -- %s' % (s.expr, nz_exception(q, s.expr)), f, s.stmt)
             else:
-                d1.fail(f.qualname, 'maybe-zero', 'a possibly-zero value is stored into sparse storage: %s' % s.what, f, s.stmt)
-        if nzs:
-            d1.fail(f.qualname, 'nzstar', 'product/quotient stored without a zero test (%d site(s), e.g. %s): an IEEE underflow stores 0.0'
-                    % (len(nzs), nzs[0].what), f, nzs[0].stmt)
+                d1.fail(q, 'maybe-zero', 'a possibly-zero value is stored into sparse storage: %s' % s.what, f, s.stmt)
+        for q, lst in nzs.items():
+            d1.fail(q, 'nzstar', 'product/quotient stored without a zero test (%d site(s), e.g. %s): an IEEE underflow stores 0.0'
+                    % (len(lst), lst[0].what), f, lst[0].stmt)
 
     # ---------------- D2
     sv = prog.cls('SparseVector', SP)
